@@ -83,7 +83,7 @@ pub fn run(ctx: &Ctx) {
         report(ctx, &f, "word-lattice", out, &openq);
     }
     // word forms: generated triples, quotient boundary constructed
-    let cases = ctx.tier.pick(100_000u32, 6_000_000u32);
+    let cases = ctx.tier.pick(600_000u32, 20_000_000u32);
     for f in md_fns().into_iter().filter(|f| f.w == 16) {
         let op = match f.kind { Kind::Md(op) => op, _ => unreachable!() };
         let shards = 16u64;
